@@ -173,8 +173,23 @@ func (c *SimCreds) GetRequestMetadata(ctx context.Context, uri ...string) (map[s
 	if c.FailErr != nil {
 		return nil, c.FailErr
 	}
+	if err := ctx.Err(); err != nil {
+		return nil, err
+	}
+	// credentials derive what they attach from the context of the call (a
+	// token, an identity): here, the id the caller put there
+	if v, ok := ctx.Value(credCallKey{}).(string); ok {
+		out := map[string]string{"cred-call": v}
+		for k, val := range c.MD {
+			out[k] = val
+		}
+		return out, nil
+	}
 	return c.MD, nil
 }
+
+type credCallKey struct{}
+
 func (c *SimCreds) RequireTransportSecurity() bool { return c.Secure }
 
 // ---- payloads -------------------------------------------------------------
@@ -686,6 +701,15 @@ func (w *World) RunCaller(parent context.Context, cc grpc.ClientConnInterface, p
 	}()
 
 	var opts []grpc.CallOption
+	// A third of the plans use locations that still hold what an earlier call
+	// left there (an application that re-uses one variable): a call overwrites
+	// its locations whatever its outcome.
+	if p.ID%3 == 0 {
+		res.HdrTarget = metadata.MD{"stale-from-an-earlier-call": []string{"h"}}
+		res.TlrTarget = metadata.MD{"stale-from-an-earlier-call": []string{"t"}}
+		res.HdrTarget0 = metadata.MD{"stale-from-an-earlier-call": []string{"h"}}
+		res.TlrTarget0 = metadata.MD{"stale-from-an-earlier-call": []string{"t"}}
+	}
 	// every other plan passes two locations of a kind
 	two := p.ID%2 == 0
 	if p.OptHeader {
@@ -707,6 +731,7 @@ func (w *World) RunCaller(parent context.Context, cc grpc.ClientConnInterface, p
 		opts = append(opts, grpctunnel.WithTunnelChannel(&res.ChanTarget))
 	}
 	if p.Creds != nil {
+		ctx = context.WithValue(ctx, credCallKey{}, "call-"+strconv.Itoa(p.ID))
 		opts = append(opts, grpc.PerRPCCredentials(p.Creds))
 	}
 
@@ -862,6 +887,11 @@ func (c *cstream) exec(actor string, ops []Op) {
 			evInvoke(p.ID, actor, OpCloseSend, 0, 0)
 			err := c.cs.CloseSend()
 			evReturn(p.ID, actor, OpCloseSend, 0, &OpResult{Err: err})
+			if p.ID%4 == 1 {
+				// closing the send side again is harmless in gRPC; whatever it
+				// returns here, it must not put a second half-close on the wire
+				_ = c.cs.CloseSend()
+			}
 		case OpRecv:
 			if term, _ := c.recvOne(actor); term {
 				c.maybeCancel(actor, i, false)
